@@ -26,7 +26,9 @@ pub const UNITS: &[&str] = &["g", "kg", "ml", "l", "cup", "cups", "tsp", "tbsp",
 pub const TIME_UNITS: &[&str] = &["min", "minutes", "h", "hours", "s", "sec", "d", "day", "secs", "mins", "minute", "hour", "seconds", "days"];
 pub const TEXT_VALUES: &[&str] = &["a pinch", "some", "to taste", "handful", "a dash", "half a", "plenty", "one or two", "1/0-x", "1/2-some", "2-x",
     // text for the parser, numbers for a float parser
-    "01", "+2", "1e3", "inf", "nan", "2E1", "007", "1_000"];
+    "01", "+2", "1e3", "inf", "nan", "2E1", "007", "1_000",
+    // ASCII digits directly followed by numerals that are not ASCII
+    "1½", "20²", "1٣", "3¼"];
 pub const INLINE_UNITS: &[&str] = &["ºC", "°F", "kg", "ml", "C", "minutes"];
 pub const INLINE_NUMS: &[&str] = &["180", "350", "2", "1.5", "0.5"];
 pub const META_KEYS: &[&str] = &[
